@@ -297,6 +297,24 @@ func (fr *Frame) callMods(c *ast.CallExpr, ms *modSet, markLhs func(ast.Expr)) {
 				ms.heapAll = true
 				continue
 			}
+			if strings.HasPrefix(m, "arg:") {
+				// writes through a pointer argument: the pointee's field keys
+				pn := strings.TrimSpace(strings.TrimPrefix(m, "arg:"))
+				for i, prm := range ct.Params {
+					if prm.Name == pn && i < len(c.Args) {
+						if pt, ok := fr.typeOf(c.Args[i]).Underlying().(*types.Pointer); ok {
+							if stt, ok := pt.Elem().Underlying().(*types.Struct); ok {
+								for j := 0; j < stt.NumFields(); j++ {
+									ms.heapKeys[x.u.heapKeyForField(stt.Field(j), pt.Elem())] = true
+								}
+							} else {
+								ms.heapAll = true
+							}
+						}
+					}
+				}
+				continue
+			}
 			for _, k := range x.placeKeys(x.eng.pkgs[ct.Pkg], m) {
 				ms.heapKeys[k] = true
 			}
